@@ -1,448 +1,17 @@
-import ParryModel.Proto
-import ParryModel.C09.Model
-import ParryModel.C09.Model2
-/-! C09 protocol handlers: model evaluation at `Float` and exact-`Rat` oracles on implementation output. -/
+import ParryModel.C09.DriverA
+import ParryModel.C09.DriverB
+import ParryModel.C09.DriverC
+/-! C09 protocol handlers: `DriverA` (intervals, box algebra, closed forms, spheres, SIMD lanes),
+`DriverB` (boxes / spheres of every shape kind, composites, swept boxes),
+`DriverC` (`find_root_intervals`, `Interval::sin/cos`). -/
 namespace C09
-open Model Proto
-
-def pinterval : P (Interval Float) := do let a ← pf; let b ← pf; pure ⟨a, b⟩
-def fint (x : Interval Float) : String := s!"{ff x.lo} {ff x.hi}"
-def paabb3 : P (Aabb3 Float) := do let a ← pv3; let b ← pv3; pure ⟨a, b⟩
-def paabb2 : P (Aabb2 Float) := do let a ← pv2; let b ← pv2; pure ⟨a, b⟩
-def faabb3 (b : Aabb3 Float) : String := s!"{fv3 b.mins} {fv3 b.maxs}"
-def faabb2 (b : Aabb2 Float) : String := s!"{fv2 b.mins} {fv2 b.maxs}"
-def qaabb3 (b : Aabb3 Float) : Aabb3 Rat := ⟨q3 b.mins, q3 b.maxs⟩
-def qaabb2 (b : Aabb2 Float) : Aabb2 Rat := ⟨q2 b.mins, q2 b.maxs⟩
-def poaabb3 : P (Aabb3 Float) := do
-  let a ← pfo; let b ← pfo; let c ← pfo; let d ← pfo; let e ← pfo; let f ← pfo; pure ⟨⟨a,b,c⟩,⟨d,e,f⟩⟩
-def poaabb2 : P (Aabb2 Float) := do
-  let a ← pfo; let b ← pfo; let d ← pfo; let e ← pfo; pure ⟨⟨a,b⟩,⟨d,e⟩⟩
-
-/-- sample points of an interval: endpoints, midpoint, quarter points, zero if inside -/
-def samples (x : Interval Rat) : List Rat :=
-  let m := (x.lo + x.hi) / 2
-  let base := [x.lo, x.hi, m, (x.lo + m) / 2, (m + x.hi) / 2]
-  if x.lo ≤ 0 ∧ 0 ≤ x.hi then 0 :: base else base
-
-def inTol (r : Interval Rat) (v : Rat) : Bool := leTol r.lo v tolDefault && leTol v r.hi tolDefault
-
-/-- oracle for a binary interval operation: `f u v ∈ out` for all sample pairs -/
-def binOracle (f : Rat → Rat → Rat) (x y : Interval Float) (out : Interval Float) : String :=
-  if !(FloatIO.isFinite out.lo && FloatIO.isFinite out.hi) then "fail nonfinite-output" else
-  let X : Interval Rat := ⟨q x.lo, q x.hi⟩
-  let Y : Interval Rat := ⟨q y.lo, q y.hi⟩
-  let O : Interval Rat := ⟨q out.lo, q out.hi⟩
-  let bad := (samples X).flatMap fun u => (samples Y).filterMap fun v =>
-    if inTol O (f u v) then none else some (u, v)
-  match bad with
-  | [] => "pass"
-  | (u, v) :: _ => s!"fail not-enclosed u={u} v={v} f={f u v} out=[{O.lo},{O.hi}]"
-
-def corners3 (b : Aabb3 Rat) : List (V3 Rat) :=
-  [b.mins.x, b.maxs.x].flatMap fun x => [b.mins.y, b.maxs.y].flatMap fun y =>
-    [b.mins.z, b.maxs.z].map fun z => ⟨x, y, z⟩
-def corners2 (b : Aabb2 Rat) : List (V2 Rat) :=
-  [b.mins.x, b.maxs.x].flatMap fun x => [b.mins.y, b.maxs.y].map fun y => ⟨x, y⟩
-def samplePts3 (b : Aabb3 Rat) : List (V3 Rat) := b.center :: corners3 b
-
-def inBox3 (b : Aabb3 Rat) (p : V3 Rat) : Bool :=
-  leTol b.mins.x p.x tolDefault && leTol p.x b.maxs.x tolDefault &&
-  leTol b.mins.y p.y tolDefault && leTol p.y b.maxs.y tolDefault &&
-  leTol b.mins.z p.z tolDefault && leTol p.z b.maxs.z tolDefault
-def inBox2 (b : Aabb2 Rat) (p : V2 Rat) : Bool :=
-  leTol b.mins.x p.x tolDefault && leTol p.x b.maxs.x tolDefault &&
-  leTol b.mins.y p.y tolDefault && leTol p.y b.maxs.y tolDefault
-def validBox3 (b : Aabb3 Float) : Bool :=
-  finite3 b.mins && finite3 b.maxs
-def allIn3 (b : Aabb3 Float) (pts : List (V3 Rat)) : String :=
-  if !validBox3 b then "fail nonfinite-output" else
-  match pts.filter (fun p => !inBox3 (qaabb3 b) p) with
-  | [] => "pass"
-  | p :: _ => s!"fail point-outside ({p.x},{p.y},{p.z})"
-def allIn2 (b : Aabb2 Float) (pts : List (V2 Rat)) : String :=
-  match pts.filter (fun p => !inBox2 (qaabb2 b) p) with
-  | [] => "pass"
-  | p :: _ => s!"fail point-outside ({p.x},{p.y})"
-
-/-- the box touches the point set on every side (tightness) -/
-def tight3 (b : Aabb3 Float) (pts : List (V3 Rat)) : Bool :=
-  let B := qaabb3 b
-  let t : Rat := 1 / 1000000
-  (List.range 3).all fun i =>
-    pts.any (fun p => leTol (B.maxs.get i) (p.get i) t) && pts.any (fun p => leTol (p.get i) (B.mins.get i) t)
-
-
-/-! ### part 2 helpers -/
-def fsphere (s : Sphere3 Float) : String := s!"{fv3 s.center} {ff s.radius}"
-def psphere : P (Sphere3 Float) := do let c ← pv3; let r ← pf; pure ⟨c, r⟩
-def posphere : P (Sphere3 Float) := do let x ← pfo; let y ← pfo; let z ← pfo; let r ← pfo; pure ⟨⟨x, y, z⟩, r⟩
-def tol9 : Rat := 1 / 1000000000
-/-- all points within the sphere (squared comparison, relative tolerance) -/
-def ptsInSphere (s : Sphere3 Float) (pts : List (V3 Rat)) (pad : Rat := 0) : String :=
-  if !(finite3 s.center && FloatIO.isFinite s.radius) then "fail nonfinite-output" else
-  let C := q3 s.center; let R := q s.radius - pad
-  if R < -(tol9) then "fail radius-smaller-than-shape-radius" else
-  match pts.filter (fun p => !(leTol ((p.sub C).normSq) (R * R) tol9)) with
-  | [] => "pass"
-  | p :: _ => s!"fail shape-point-outside-sphere ({p.x},{p.y},{p.z})"
-def psimd : P (SimdAabb3 Float) := do let a ← paabb3; let b ← paabb3; let c ← paabb3; let d ← paabb3; pure ⟨a, b, c, d⟩
-def fbools (l : List Bool) : String := String.intercalate " " (l.map fb)
-def fboxes (l : List (Aabb3 Float)) : String := String.intercalate " " (l.map faabb3)
-def poboxes4 : P (List (Aabb3 Float)) := do let a ← poaabb3; let b ← poaabb3; let c ← poaabb3; let d ← poaabb3; pure [a, b, c, d]
-def fext (e : Ext Float) : String := match e with
-  | .negInf => "fff0000000000000" | .posInf => "7ff0000000000000" | .fin v => ff v
-def feint (i : EInterval Float) : String := s!"{fext i.lo} {fext i.hi}"
-/-- extended rational: none = -inf / +inf by position -/
-def qext (t : String) : Option (Option Rat) :=
-  if t = "fff0000000000000" || t = "7ff0000000000000" then some none
-  else match FloatIO.ofHex? t with | some x => if FloatIO.isFinite x then some (some (q x)) else none | none => none
-def inPiece (lo hi : Option Rat) (w : Rat) : Bool :=
-  (match lo with | none => true | some l => leTol l w tol9) && (match hi with | none => true | some h => leTol w h tol9)
-
-def withOut {α} (p : P α) (out : List String) (k : α → String) : String :=
-  match out with
-  | "panic" :: _ => "fail panic"
-  | _ => match run p out with
-    | some a => k a
-    | none => "fail unparsable-output"
+open Proto
 
 def handler (fn : String) : Option Handler :=
-  match fn with
-  | "interval_add" => some {
-      model := fun a => run (do let x ← pinterval; let y ← pinterval; pure (fint (x.add y))) a
-      oracle := fun a o => match run (do let x ← pinterval; let y ← pinterval; pure (x, y)) a with
-        | some (x, y) => withOut (do let a ← pfo; let b ← pfo; pure (⟨a, b⟩ : Interval Float)) o (binOracle (· + ·) x y)
-        | none => "skip bad-args" }
-  | "interval_sub" => some {
-      model := fun a => run (do let x ← pinterval; let y ← pinterval; pure (fint (x.sub y))) a
-      oracle := fun a o => match run (do let x ← pinterval; let y ← pinterval; pure (x, y)) a with
-        | some (x, y) => withOut (do let a ← pfo; let b ← pfo; pure (⟨a, b⟩ : Interval Float)) o (binOracle (· - ·) x y)
-        | none => "skip bad-args" }
-  | "interval_mul" => some {
-      model := fun a => run (do let x ← pinterval; let y ← pinterval; pure (fint (x.mul y))) a
-      oracle := fun a o => match run (do let x ← pinterval; let y ← pinterval; pure (x, y)) a with
-        | some (x, y) => withOut (do let a ← pfo; let b ← pfo; pure (⟨a, b⟩ : Interval Float)) o (binOracle (· * ·) x y)
-        | none => "skip bad-args" }
-  | "interval_muls" => some {
-      model := fun a => run (do let x ← pinterval; let r ← pf; pure (fint (x.mulS r))) a
-      oracle := fun a o => match run (do let x ← pinterval; let r ← pf; pure (x, r)) a with
-        | some (x, r) => withOut (do let a ← pfo; let b ← pfo; pure (⟨a, b⟩ : Interval Float)) o (binOracle (· * ·) x ⟨r, r⟩)
-        | none => "skip bad-args" }
-  | "interval_neg" => some {
-      model := fun a => run (do let x ← pinterval; pure (fint x.neg)) a
-      oracle := fun a o => match run pinterval a with
-        | some x => withOut (do let a ← pfo; let b ← pfo; pure (⟨a, b⟩ : Interval Float)) o (binOracle (fun u _ => -u) x ⟨0, 0⟩)
-        | none => "skip bad-args" }
-  | "interval_intersect" => some {
-      model := fun a => run (do let x ← pinterval; let y ← pinterval
-                                pure (match x.intersect y with | none => "none" | some r => "some " ++ fint r)) a
-      oracle := fun a o => match run (do let x ← pinterval; let y ← pinterval; pure (x, y)) a with
-        | some (x, y) =>
-          let lo := max (q x.lo) (q y.lo); let hi := min (q x.hi) (q y.hi)
-          match o with
-          | ["none"] => if lo ≤ hi then s!"fail none-but-overlap [{lo},{hi}]" else "pass"
-          | "some" :: rest => withOut (do let a ← pfo; let b ← pfo; pure (⟨a, b⟩ : Interval Float)) rest fun r =>
-              if lo ≤ hi ∧ q r.lo = lo ∧ q r.hi = hi then "pass" else "fail wrong-intersection"
-          | _ => "fail unparsable-output"
-        | none => "skip bad-args" }
-  | "aabb_merged" => some {
-      model := fun a => run (do let x ← paabb3; let y ← paabb3; pure (faabb3 (x.merged y))) a
-      oracle := fun a o => match run (do let x ← paabb3; let y ← paabb3; pure (x, y)) a with
-        | some (x, y) => withOut poaabb3 o fun r => allIn3 r (corners3 (qaabb3 x) ++ corners3 (qaabb3 y))
-        | none => "skip bad-args" }
-  | "aabb_loosened" => some {
-      model := fun a => run (do let x ← paabb3; let m ← pf; pure (faabb3 (x.loosened m))) a
-      oracle := fun a o => match run (do let x ← paabb3; let m ← pf; pure (x, m)) a with
-        | some (x, _) => withOut poaabb3 o fun r => allIn3 r (corners3 (qaabb3 x))
-        | none => "skip bad-args" }
-  | "aabb_intersects" => some {
-      model := fun a => run (do let x ← paabb3; let y ← paabb3; pure (fb (x.intersects y))) a
-      oracle := fun a o => match run (do let x ← paabb3; let y ← paabb3; pure (x, y)) a with
-        | some (x, y) =>
-          let X := qaabb3 x; let Y := qaabb3 y
-          let ex := (List.range 3).all fun i => X.mins.get i ≤ Y.maxs.get i ∧ Y.mins.get i ≤ X.maxs.get i
-          if o = [fb ex] then "pass" else s!"fail intersects-verdict expected={ex}"
-        | none => "skip bad-args" }
-  | "aabb_contains" => some {
-      model := fun a => run (do let x ← paabb3; let y ← paabb3; pure (fb (x.contains y))) a
-      oracle := fun a o => match run (do let x ← paabb3; let y ← paabb3; pure (x, y)) a with
-        | some (x, y) =>
-          let X := qaabb3 x; let Y := qaabb3 y
-          let ex := (List.range 3).all fun i => X.mins.get i ≤ Y.mins.get i ∧ Y.maxs.get i ≤ X.maxs.get i
-          if o = [fb ex] then "pass" else s!"fail contains-verdict expected={ex}"
-        | none => "skip bad-args" }
-  | "aabb_contains_point" => some {
-      model := fun a => run (do let x ← paabb3; let p ← pv3; pure (fb (x.containsLocalPoint p))) a
-      oracle := fun a o => match run (do let x ← paabb3; let p ← pv3; pure (x, p)) a with
-        | some (x, p) =>
-          let X := qaabb3 x; let P := q3 p
-          let ex := (List.range 3).all fun i => X.mins.get i ≤ P.get i ∧ P.get i ≤ X.maxs.get i
-          if o = [fb ex] then "pass" else s!"fail contains-point-verdict expected={ex}"
-        | none => "skip bad-args" }
-  | "aabb_intersection" => some {
-      model := fun a => run (do let x ← paabb3; let y ← paabb3
-                                pure (match x.intersection y with | none => "none" | some r => "some " ++ faabb3 r)) a
-      oracle := fun a o => match run (do let x ← paabb3; let y ← paabb3; pure (x, y)) a with
-        | some (x, y) =>
-          let X := qaabb3 x; let Y := qaabb3 y
-          let lo : V3 Rat := ⟨max X.mins.x Y.mins.x, max X.mins.y Y.mins.y, max X.mins.z Y.mins.z⟩
-          let hi : V3 Rat := ⟨min X.maxs.x Y.maxs.x, min X.maxs.y Y.maxs.y, min X.maxs.z Y.maxs.z⟩
-          let nonempty := lo.x ≤ hi.x ∧ lo.y ≤ hi.y ∧ lo.z ≤ hi.z
-          match o with
-          | ["none"] => if nonempty then "fail none-but-overlap" else "pass"
-          | "some" :: rest => withOut poaabb3 rest fun r =>
-              let R := qaabb3 r
-              if nonempty ∧ R.mins.x = lo.x ∧ R.mins.y = lo.y ∧ R.mins.z = lo.z ∧ R.maxs.x = hi.x ∧ R.maxs.y = hi.y ∧ R.maxs.z = hi.z
-              then "pass" else "fail wrong-intersection"
-          | _ => "fail unparsable-output"
-        | none => "skip bad-args" }
-  | "aabb_scaled" => some {
-      model := fun a => run (do let x ← paabb3; let s ← pv3; pure (faabb3 (x.scaled s))) a
-      oracle := fun a o => match run (do let x ← paabb3; let s ← pv3; pure (x, s)) a with
-        | some (x, s) => withOut poaabb3 o fun r => allIn3 r ((samplePts3 (qaabb3 x)).map (·.cmul (q3 s)))
-        | none => "skip bad-args" }
-  | "aabb_scaled_wrt_center" => some {
-      model := fun a => run (do let x ← paabb3; let s ← pv3; pure (faabb3 (x.scaledWrtCenter s))) a
-      oracle := fun a o => match run (do let x ← paabb3; let s ← pv3; pure (x, s)) a with
-        | some (x, s) => withOut poaabb3 o fun r =>
-            let X := qaabb3 x; let c := X.center
-            allIn3 r ((samplePts3 X).map fun p => c.add ((p.sub c).cmul (q3 s)))
-        | none => "skip bad-args" }
-  | "aabb_transform" => some {
-      model := fun a => run (do let x ← paabb3; let m ← piso3; pure (faabb3 (x.transformBy m))) a
-      oracle := fun a o => match run (do let x ← paabb3; let m ← piso3; pure (x, m)) a with
-        | some (x, m) => withOut poaabb3 o fun r =>
-            let pts := (samplePts3 (qaabb3 x)).map (qiso3 m).act
-            let res := allIn3 r pts
-            if res != "pass" then res else if tight3 r pts then "pass" else "fail not-tight"
-        | none => "skip bad-args" }
-  | "aabb2_transform" => some {
-      model := fun a => run (do let x ← paabb2; let m ← piso2; pure (faabb2 (x.transformBy m))) a
-      oracle := fun a o => match run (do let x ← paabb2; let m ← piso2; pure (x, m)) a with
-        | some (x, m) => withOut poaabb2 o fun r => allIn2 r ((corners2 (qaabb2 x)).map (qiso2 m).act)
-        | none => "skip bad-args" }
-  | "aabb_bounding_sphere" => some {
-      model := fun a => run (do let x ← paabb3; let s := x.boundingSphere; pure s!"{fv3 s.center} {ff s.radius}") a
-      oracle := fun a o => match run paabb3 a with
-        | some x => withOut (do let c ← pv3; let r ← pfo; pure (c, r)) o fun (c, r) =>
-            let C := q3 c; let R := q r
-            if R < 0 then "fail negative-radius" else
-            match (corners3 (qaabb3 x)).filter (fun p => !leTol ((p.sub C).normSq) (R * R) tolDefault) with
-            | [] => "pass"
-            | _ => "fail corner-outside-sphere"
-        | none => "skip bad-args" }
-  | "aabb_from_points" => some {
-      model := fun a => run (do let ps ← plist pv3
-                                match ps with
-                                | [] => pure "panic"
-                                | p :: ps => pure (faabb3 (Aabb3.fromPoints p ps))) a
-      oracle := fun a o => match run (plist pv3) a with
-        | some ps => withOut poaabb3 o fun r =>
-            let pts := ps.map q3
-            let res := allIn3 r pts
-            if res != "pass" then res else if tight3 r pts then "pass" else "fail not-tight"
-        | none => "skip bad-args" }
-  | "ball_aabb" => some {
-      model := fun a => run (do let r ← pf; let m ← piso3; pure (faabb3 (ballAabb r m))) a
-      oracle := fun a o => match run (do let r ← pf; let m ← piso3; pure (r, m)) a with
-        | some (r, m) => withOut poaabb3 o fun b =>
-            let c := q3 m.t; let R := q r
-            let pts : List (V3 Rat) := [⟨c.x+R,c.y,c.z⟩,⟨c.x-R,c.y,c.z⟩,⟨c.x,c.y+R,c.z⟩,⟨c.x,c.y-R,c.z⟩,⟨c.x,c.y,c.z+R⟩,⟨c.x,c.y,c.z-R⟩]
-            let res := allIn3 b pts
-            if res != "pass" then res else if tight3 b pts then "pass" else "fail not-tight"
-        | none => "skip bad-args" }
-  | "cuboid_aabb" => some {
-      model := fun a => run (do let he ← pv3; let m ← piso3; pure (faabb3 (cuboidAabb he m))) a
-      oracle := fun a o => match run (do let he ← pv3; let m ← piso3; pure (he, m)) a with
-        | some (he, m) => withOut poaabb3 o fun b =>
-            let H := q3 he
-            let pts := (corners3 ⟨H.neg, H⟩).map (qiso3 m).act
-            let res := allIn3 b pts
-            if res != "pass" then res else if tight3 b pts then "pass" else "fail not-tight"
-        | none => "skip bad-args" }
-  | "cuboid_aabb2" => some {
-      model := fun a => run (do let he ← pv2; let m ← piso2; pure (faabb2 (cuboidAabb2 he m))) a
-      oracle := fun a o => match run (do let he ← pv2; let m ← piso2; pure (he, m)) a with
-        | some (he, m) => withOut poaabb2 o fun b =>
-            let H := q2 he
-            allIn2 b ((corners2 ⟨H.neg, H⟩).map (qiso2 m).act)
-        | none => "skip bad-args" }
-  | "capsule_aabb" => some {
-      model := fun a => run (do let p ← pv3; let p' ← pv3; let r ← pf; let m ← piso3; pure (faabb3 (capsuleAabb p p' r m))) a
-      oracle := fun a o => match run (do let p ← pv3; let p' ← pv3; let r ← pf; let m ← piso3; pure (p, p', r, m)) a with
-        | some (p, p', r, m) => withOut poaabb3 o fun b =>
-            let M := qiso3 m; let R := q r
-            let ends := [M.act (q3 p), M.act (q3 p')]
-            let pts := ends.flatMap fun c => ([⟨c.x+R,c.y,c.z⟩,⟨c.x-R,c.y,c.z⟩,⟨c.x,c.y+R,c.z⟩,⟨c.x,c.y-R,c.z⟩,⟨c.x,c.y,c.z+R⟩,⟨c.x,c.y,c.z-R⟩] : List (V3 Rat))
-            let res := allIn3 b pts
-            if res != "pass" then res else if tight3 b pts then "pass" else "fail not-tight"
-        | none => "skip bad-args" }
-  | "triangle_aabb" => some {
-      model := fun a => run (do let p ← pv3; let p' ← pv3; let p'' ← pv3; let m ← piso3; pure (faabb3 (triangleAabb p p' p'' m))) a
-      oracle := fun a o => match run (do let p ← pv3; let p' ← pv3; let p'' ← pv3; let m ← piso3; pure (p, p', p'', m)) a with
-        | some (p, p', p'', m) => withOut poaabb3 o fun b =>
-            let M := qiso3 m
-            let pts := [M.act (q3 p), M.act (q3 p'), M.act (q3 p'')]
-            let res := allIn3 b pts
-            if res != "pass" then res else if tight3 b pts then "pass" else "fail not-tight"
-        | none => "skip bad-args" }
-  | "ball_bsphere" => some {
-      model := fun a => run (do let r ← pf; let m ← piso3; pure (fsphere (ballSphere r m))) a
-      oracle := fun a o => match run (do let r ← pf; let m ← piso3; pure (r, m)) a with
-        | some (r, m) => withOut posphere o fun s => ptsInSphere s [q3 m.t] (q r)
-        | none => "skip bad-args" }
-  | "cuboid_bsphere" => some {
-      model := fun a => run (do let he ← pv3; let m ← piso3; pure (fsphere (cuboidSphere he m))) a
-      oracle := fun a o => match run (do let he ← pv3; let m ← piso3; pure (he, m)) a with
-        | some (he, m) => withOut posphere o fun s => let H := q3 he; ptsInSphere s ((corners3 ⟨H.neg, H⟩).map (qiso3 m).act)
-        | none => "skip bad-args" }
-  | "capsule_bsphere" => some {
-      model := fun a => run (do let p ← pv3; let p' ← pv3; let r ← pf; let m ← piso3; pure (fsphere (capsuleSphere p p' r m))) a
-      oracle := fun a o => match run (do let p ← pv3; let p' ← pv3; let r ← pf; let m ← piso3; pure (p, p', r, m)) a with
-        | some (p, p', r, m) => withOut posphere o fun s => ptsInSphere s [(qiso3 m).act (q3 p), (qiso3 m).act (q3 p')] (q r)
-        | none => "skip bad-args" }
-  | "cone_bsphere" => some {
-      model := fun a => run (do let hh ← pf; let r ← pf; let m ← piso3; pure (fsphere (coneSphere hh r m))) a
-      oracle := fun a o => match run (do let hh ← pf; let r ← pf; let m ← piso3; pure (hh, r, m)) a with
-        | some (hh, r, m) => withOut posphere o fun s =>
-            let H := q hh; let R := q r
-            ptsInSphere s (([⟨0, H, 0⟩, ⟨R, -H, 0⟩, ⟨-R, -H, 0⟩, ⟨0, -H, R⟩, ⟨0, -H, -R⟩, ⟨R * 3 / 5, -H, R * 4 / 5⟩] : List (V3 Rat)).map (qiso3 m).act)
-        | none => "skip bad-args" }
-  | "cyl_bsphere" => some {
-      model := fun a => run (do let hh ← pf; let r ← pf; let m ← piso3; pure (fsphere (cylinderSphere hh r m))) a
-      oracle := fun a o => match run (do let hh ← pf; let r ← pf; let m ← piso3; pure (hh, r, m)) a with
-        | some (hh, r, m) => withOut posphere o fun s =>
-            let H := q hh; let R := q r
-            ptsInSphere s (([⟨R, H, 0⟩, ⟨-R, -H, 0⟩, ⟨0, H, R⟩, ⟨0, -H, -R⟩, ⟨R * 3 / 5, H, R * 4 / 5⟩, ⟨-R * 3 / 5, -H, R * 4 / 5⟩] : List (V3 Rat)).map (qiso3 m).act)
-        | none => "skip bad-args" }
-  | "triangle_bsphere" => some {
-      model := fun a => run (do let p ← pv3; let p' ← pv3; let p'' ← pv3; let m ← piso3; pure (fsphere (triangleSphere p p' p'' m))) a
-      oracle := fun a o => match run (do let p ← pv3; let p' ← pv3; let p'' ← pv3; let m ← piso3; pure ([p, p', p''], m)) a with
-        | some (ps, m) => withOut posphere o fun s => ptsInSphere s (ps.map fun p => (qiso3 m).act (q3 p))
-        | none => "skip bad-args" }
-  | "segment_bsphere" => some {
-      model := fun a => run (do let p ← pv3; let p' ← pv3; let m ← piso3; pure (fsphere (segmentSphere p p' m))) a
-      oracle := fun a o => match run (do let p ← pv3; let p' ← pv3; let m ← piso3; pure ([p, p'], m)) a with
-        | some (ps, m) => withOut posphere o fun s => ptsInSphere s (ps.map fun p => (qiso3 m).act (q3 p))
-        | none => "skip bad-args" }
-  | "bsphere_merged" => some {
-      model := fun a => run (do let x ← psphere; let y ← psphere; pure (fsphere (x.merged y))) a
-      oracle := fun a o => match run (do let x ← psphere; let y ← psphere; pure (x, y)) a with
-        | some (x, y) => withOut posphere o fun s =>
-            let r1 := ptsInSphere s [q3 x.center] (q x.radius)
-            if r1 != "pass" then r1 else ptsInSphere s [q3 y.center] (q y.radius)
-        | none => "skip bad-args" }
-  | "bsphere_intersects" => some {
-      model := fun a => run (do let x ← psphere; let y ← psphere; pure (fb (x.intersects y))) a
-      oracle := fun a o => match run (do let x ← psphere; let y ← psphere; pure (x, y)) a with
-        | some (x, y) =>
-          let d2 := ((q3 y.center).sub (q3 x.center)).normSq; let sr := q x.radius + q y.radius
-          -- skip the rounding-sensitive band around tangency
-          if rabs (d2 - sr * sr) ≤ tol9 * (1 + d2 + sr * sr) then "skip near-tangent" else
-          if o = [fb (decide (d2 ≤ sr * sr))] then "pass" else "fail intersects-verdict"
-        | none => "skip bad-args" }
-  | "bsphere_contains" => some {
-      model := fun a => run (do let x ← psphere; let y ← psphere; pure (fb (x.contains y))) a
-      oracle := fun a o => match run (do let x ← psphere; let y ← psphere; pure (x, y)) a with
-        | some (x, y) =>
-          let d2 := ((q3 y.center).sub (q3 x.center)).normSq; let dr := q x.radius - q y.radius
-          if rabs (d2 - dr * dr) ≤ tol9 * (1 + d2 + dr * dr) then "skip near-tangent" else
-          let ex := decide (0 ≤ dr) && decide (d2 ≤ dr * dr)
-          if o = [fb ex] then "pass" else "fail contains-verdict"
-        | none => "skip bad-args" }
-  | "simd_contains" => some {
-      model := fun a => run (do let x ← psimd; let y ← psimd; pure (fbools (x.contains y))) a
-      oracle := fun a o => match run (do let x ← psimd; let y ← psimd; pure (x, y)) a with
-        | some (x, y) =>
-          let ex := (x.lanes.zip y.lanes).map fun (X, Y) =>
-            let X := qaabb3 X; let Y := qaabb3 Y
-            (List.range 3).all fun i => decide (X.mins.get i ≤ Y.mins.get i) && decide (Y.maxs.get i ≤ X.maxs.get i)
-          if o = ex.map fb then "pass" else s!"fail lane-differs-from-scalar-contains expected={fbools ex}"
-        | none => "skip bad-args" }
-  | "simd_intersects" => some {
-      model := fun a => run (do let x ← psimd; let y ← psimd; pure (fbools (x.intersects y))) a
-      oracle := fun a o => match run (do let x ← psimd; let y ← psimd; pure (x, y)) a with
-        | some (x, y) =>
-          let ex := (x.lanes.zip y.lanes).map fun (X, Y) =>
-            let X := qaabb3 X; let Y := qaabb3 Y
-            (List.range 3).all fun i => decide (X.mins.get i ≤ Y.maxs.get i) && decide (Y.mins.get i ≤ X.maxs.get i)
-          if o = ex.map fb then "pass" else s!"fail lane-differs-from-scalar-intersects expected={fbools ex}"
-        | none => "skip bad-args" }
-  | "simd_contains_point" => some {
-      model := fun a => run (do let x ← psimd; let p ← pv3; pure (fbools (x.lanes.map (SimdAabb3.lanePoint · p)))) a
-      oracle := fun a o => match run (do let x ← psimd; let p ← pv3; pure (x, p)) a with
-        | some (x, p) =>
-          let P := q3 p
-          let ex := x.lanes.map fun X => let X := qaabb3 X
-            (List.range 3).all fun i => decide (X.mins.get i ≤ P.get i) && decide (P.get i ≤ X.maxs.get i)
-          if o = ex.map fb then "pass" else s!"fail lane-differs-from-scalar-contains-point expected={fbools ex}"
-        | none => "skip bad-args" }
-  | "simd_scaled" => some {
-      model := fun a => run (do let x ← psimd; let s ← pv3; pure (fboxes (x.scaled s))) a
-      oracle := fun a o => match run (do let x ← psimd; let s ← pv3; pure (x, s)) a with
-        | some (x, s) => withOut poboxes4 o fun rs =>
-            match ((x.lanes.zip rs).map fun (X, r) => allIn3 r ((samplePts3 (qaabb3 X)).map (·.cmul (q3 s)))).filter (· != "pass") with
-            | [] => "pass" | e :: _ => e
-        | none => "skip bad-args" }
-  | "simd_loosen" => some {
-      model := fun a => run (do let x ← psimd; let m ← pf; pure (fboxes (x.loosen m))) a
-      oracle := fun a o => match run (do let x ← psimd; let m ← pf; pure (x, m)) a with
-        | some (x, _) => withOut poboxes4 o fun rs =>
-            match ((x.lanes.zip rs).map fun (X, r) => allIn3 r (corners3 (qaabb3 X))).filter (· != "pass") with
-            | [] => "pass" | e :: _ => e
-        | none => "skip bad-args" }
-  | "simd_dilate" => some {
-      model := fun a => run (do let x ← psimd; let f ← pf; pure (fboxes (x.lanes.map (SimdAabb3.dilateLane · f)))) a
-      oracle := fun a o => match run (do let x ← psimd; let f ← pf; pure (x, f)) a with
-        | some (x, _) => withOut poboxes4 o fun rs =>
-            match ((x.lanes.zip rs).map fun (X, r) =>
-                -- valid lanes must still contain the original box; invalid sentinel lanes must be left unchanged
-                if q X.mins.x ≤ q X.maxs.x then allIn3 r (corners3 (qaabb3 X))
-                else if faabb3 r == faabb3 X then "pass" else "fail invalid-lane-modified").filter (· != "pass") with
-            | [] => "pass" | e :: _ => e
-        | none => "skip bad-args" }
-  | "simd_merged" => some {
-      model := fun a => run (do let x ← psimd; pure (faabb3 x.toMerged)) a
-      oracle := fun a o => match run psimd a with
-        | some x => withOut poaabb3 o fun r =>
-            -- invalid sentinel lanes (mins > maxs) are the neutral element of the merge and contribute no point
-            let pts := (x.lanes.filter fun X => q X.mins.x ≤ q X.maxs.x).flatMap fun X => corners3 (qaabb3 X)
-            if pts.isEmpty then "skip all-lanes-invalid" else
-            let res := allIn3 r pts
-            if res != "pass" then res else if tight3 r pts then "pass" else "fail not-tight"
-        | none => "skip bad-args" }
-  | "simd_dist_point" => some {
-      model := fun a => run (do let x ← psimd; let p ← pv3; pure (String.intercalate " " (x.lanes.map fun b => ff (SimdAabb3.laneDistPoint b p)))) a
-      oracle := fun a o => match run (do let x ← psimd; let p ← pv3; pure (x, p)) a with
-        | some (x, p) => withOut (do let a ← pfo; let b ← pfo; let c ← pfo; let d ← pfo; pure [a, b, c, d]) o fun ds =>
-            let P := q3 p
-            let bad := (x.lanes.zip ds).filter fun (X, d) =>
-              let X := qaabb3 X
-              let cl (v lo hi : Rat) : Rat := if v < lo then lo - v else if v > hi then v - hi else 0
-              let d2 := cl P.x X.mins.x X.maxs.x ^ 2 + cl P.y X.mins.y X.maxs.y ^ 2 + cl P.z X.mins.z X.maxs.z ^ 2
-              !(FloatIO.isFinite d) || q d < 0 || !(rabs (q d * q d - d2) ≤ tol9 * (1 + d2))
-            if bad.isEmpty then "pass" else "fail lane-distance-wrong"
-        | none => "skip bad-args" }
-  | "interval_div" => some {
-      model := fun a => run (do let x ← pinterval; let y ← pinterval
-                                let (p1, p2) := x.div y
-                                pure (match p2 with | none => feint p1 ++ " none" | some p => feint p1 ++ " " ++ feint p)) a
-      oracle := fun a o => match run (do let x ← pinterval; let y ← pinterval; pure (x, y)) a with
-        | some (x, y) =>
-          let pieces : Option (List (Option Rat × Option Rat)) := match o with
-            | [a, b, "none"] => (do let l ← qext a; let h ← qext b; pure [(l, h)])
-            | [a, b, c, d] => (do let l ← qext a; let h ← qext b; let l2 ← qext c; let h2 ← qext d; pure [(l, h), (l2, h2)])
-            | _ => none
-          match pieces with
-          | none => "fail unparsable-or-nan-output"
-          | some ps =>
-            let X : Interval Rat := ⟨q x.lo, q x.hi⟩; let Y : Interval Rat := ⟨q y.lo, q y.hi⟩
-            let bad := (samples X).flatMap fun u => (samples Y).filterMap fun v =>
-              if v = 0 then none else if ps.any (fun (l, h) => inPiece l h (u / v)) then none else some (u, v)
-            match bad with
-            | [] => "pass"
-            | (u, v) :: _ => s!"fail quotient-not-enclosed u={u} v={v} u/v={u / v}"
-        | none => "skip bad-args" }
-  | _ => none
+  match handlerA fn with
+  | some h => some h
+  | none => match handlerB fn with
+    | some h => some h
+    | none => handlerC fn
 
 end C09
